@@ -10,11 +10,14 @@
     Load_vfile reads back is the same abstract vgroup; (4) the flag-array algorithm of Vlone / VSlone returns
     exactly the objects no Vgroup lists as a member; (5) the Vgetid / VSgetid iteration visits every object of the
     table exactly once; (6) the source statements the model was written against are the ones in vgp.c now.
-    NOT proved (decided by the correspondence R-vs-S / R-vs-M only): the history-level simulation
-    "VGModel.mstep refines VGraphSpec.step" (handle table, Vdelete/VSdelete, Vfind*, Vgetvgroups, Vsetname/Vsetclass
-    glue); see design.d/C08.md. *)
+    (7) vg_graph_refines_spec: for EVERY history of the whole operation language (Vattach(-1)/Vattach r|w/Vdetach,
+    Vsetname/Vsetclass, Vaddtagref, Vinsert, Vdeletetagref, Vdelete/VSdelete, reopen, all observers incl. Vlone/VSlone,
+    Vgetid, Vfind*, Vgetvgroups) the model's results are the specification's, up to the first operation outside the
+    property's domain -- including the access mode shared by all handles of a vgroup (nattach, MAX of the requested
+    modes) and the write-back / reload of records.
+    NOT proved (correspondence only): the element store under Vdetach (a finite map here), Vdata record persistence. *)
 From Coq Require Import String ZArith List Bool Lia.
-Require Import H4.gen.Gen_VG H4.VGraphSpec H4.VGModel H4.VGProofs.
+Require Import H4.gen.Gen_VG H4.VGraphSpec H4.VGModel H4.VGProofs H4.VGSimProofs.
 Import ListNotations.
 Local Open Scope Z_scope.
 
@@ -52,7 +55,7 @@ Print Assumptions vg_pack_roundtrip.
 
 (** (3) detach + reopen: the same abstract vgroup *)
 Theorem vg_reopen_agrees : forall g, WFpack g ->
-  exists g', vunpackvg (oref g) (snd (vpackvg g)) = Some g' /\ abs_vg g' = abs_vg g /\ WF g' /\
+  exists g', vunpackvg (oref g) (snd (vpackvg g)) = Some g' /\ core g' = core g /\ WFpack g' /\
              oref g' = oref g /\ marked g' = false.
 Proof. exact reopen_agrees_lemma. Qed.
 Print Assumptions vg_reopen_agrees.
@@ -69,6 +72,19 @@ Theorem enumeration_exact : forall A (t : list (Z * A)), table_ok t ->
   all_ids t = keys t /\ NoDup (all_ids t) /\ (forall k, In k (all_ids t) <-> exists v, tget k t = Some v).
 Proof. exact enumeration_exact_lemma. Qed.
 Print Assumptions enumeration_exact.
+
+(** (7) the whole operation language: one step from any reachable state ... *)
+Theorem vg_step_refines : forall m o, Inv m ->
+  snd (step (abs_state m) o) = RUnspec \/
+  (Inv (fst (mstep m o)) /\ abs_state (fst (mstep m o)) = fst (step (abs_state m) o) /\
+   res_agree (snd (step (abs_state m) o)) (snd (mstep m o))).
+Proof. exact step_sim. Qed.
+Print Assumptions vg_step_refines.
+
+(** ... and every history from the empty file *)
+Theorem vg_graph_refines_spec : forall ops, traces_agree (s_trace init ops) (m_trace minit ops).
+Proof. exact (fun ops => graph_refines_from ops minit Inv_init). Qed.
+Print Assumptions vg_graph_refines_spec.
 
 (** (6) tie to the source text: this obligation breaks when a statement of vpackvg / vunpackvg / vinsertpair /
     Vdeletetagref, a constant or the internal class-name table changes in vgp.c *)
@@ -95,19 +111,19 @@ Proof. vm_compute. reflexivity. Qed.
 Example ex_run_model : snd (m_run (new_vgroup 2) ex_ops) =
   [MNum 1; MNum 2; MNum 3; MFail; MNum 0; MPairs [(1962, 3); (1965, 7)]; MBool true; MNum 2].
 Proof. vm_compute. reflexivity. Qed.
-Definition ex_grown : VGROUP := fst (addmany_loop (new_vgroup 2) 1965 1 1 65%nat (-1)).
-Example ex_grown_capacity : (nvelt ex_grown, msize ex_grown) = (65, 128).
+Example ex_grown_capacity :
+  match addmany_loop (new_vgroup 2) 1965 1 1 65%nat (-1) with
+  | Some (g, n) => (nvelt g, msize g, n) = (65, 128, 65) | None => False end.
 Proof. vm_compute. reflexivity. Qed.
 
 (** a record with a long name, an attribute list and version 4 satisfies WFpack and really round-trips *)
 Definition ex_vg : VGROUP :=
   mkVG 9 3 64 ([1965; 1962; 720] ++ repeat 0 61) ([2; 3; 65535] ++ repeat 0 61)
-       (Some (repeat 97 70)) (Some [67; 68; 70]) 0 0 1 2 [(1962, 11); (1962, 12)] 3 0 true false.
+       (Some (repeat 97 70)) (Some [67; 68; 70]) 0 0 1 2 [(1962, 11); (1962, 12)] 3 0 true false true.
 Example ex_vg_wf : WFpack ex_vg.
 Proof.
   constructor; cbn.
   - constructor; cbn; lia.
-  - repeat constructor; cbn; lia.
   - repeat constructor; cbn; lia.
   - intros s E. inversion E; subst. split; [repeat constructor; unfold is_char; lia | vm_compute; discriminate].
   - intros s E. inversion E; subst. split; [repeat constructor; unfold is_char; lia | vm_compute; discriminate].
@@ -127,7 +143,7 @@ Proof. vm_compute. repeat split. Qed.
 
 (** a file with three vgroups (one nested, one referencing a deleted one) and two vdatas *)
 Definition ex_g (r n : Z) (tg rf : list Z) : VGROUP :=
-  mkVG r n 64 (tg ++ repeat 0 (64 - length tg)) (rf ++ repeat 0 (64 - length rf)) None None 0 0 0 0 [] 3 0 true true.
+  mkVG r n 64 (tg ++ repeat 0 (64 - length tg)) (rf ++ repeat 0 (64 - length rf)) None None 0 0 0 0 [] 3 0 true true true.
 Definition ex_state : mstate :=
   mkm [] [(2, ex_g 2 2 [1965; 1962] [5; 4]); (5, ex_g 5 0 [] []); (9, ex_g 9 1 [1965] [77])]
       [(4, mkvs [118] []); (6, mkvs [119] [])] [] [].
@@ -143,3 +159,22 @@ Proof.
 Qed.
 Example ex_state_lone : Vlone ex_state = [2; 9] /\ VSlone ex_state = [6] /\ all_ids (m_vg ex_state) = [2; 5; 9].
 Proof. vm_compute. repeat split. Qed.
+
+(** a history inside the domain that exercises the shared access mode: a vgroup attached "w" and then "r" stays
+    writable through the read handle after the write handle is detached and after Vlone; attached "r" alone it
+    refuses edits; everything survives the reopen *)
+Definition ex_hist : list op :=
+  [OOpen; OVgNew 0 2; OAddTagRef 0 1965 7; OVgDetach 0;
+   OVgAttach 1 2 true; OVgAttach 2 2 false; OVgDetach 1; OLone 4;
+   OAddTagRef 2 1962 3; OSetName 2 [110]; OVgDetach 2;
+   OVgAttach 3 2 false; OAddTagRef 3 720 1; OGetTagRefs 3 5; OVgDetach 3;
+   OReopen; OVgAttach 4 2 false; OGetTagRefs 4 5; OGetName 4; OFind [110]; OIter].
+Example ex_hist_spec : s_trace init ex_hist =
+  [ROk [] None; ROk [2] None; ROk [1] None; ROk [] None;
+   ROk [] None; ROk [] None; ROk [] None; ROk [1; 2] None;
+   ROk [2] None; ROk [] None; ROk [] None;
+   ROk [] None; RFail; ROk [2; 1965; 7; 1962; 3] None; ROk [] None;
+   ROk [] None; ROk [] None; ROk [2; 1965; 7; 1962; 3] None; ROk [] (Some [110]); ROk [2] None; ROk [2] None].
+Proof. vm_compute. reflexivity. Qed.
+Example ex_hist_model : m_trace minit ex_hist = s_trace init ex_hist.
+Proof. vm_compute. reflexivity. Qed.
